@@ -24,6 +24,7 @@ import (
 	"sort"
 	"strings"
 	"sync"
+	"sync/atomic"
 	"time"
 
 	"github.com/luthersystems/elps/lisp"
@@ -654,12 +655,25 @@ func (c *collector) flush(r *core.Run) {
 	res := make([]verdict, len(hits))
 	core.ParallelRange(r, int64(len(hits)), nil, func(_ struct{}, i int64) {
 		h := hits[i]
-		for n := 0; n < 5; n++ {
-			var w *worker
-			if h.k.Table != "sleep" {
-				w = newWorker()
+		if h.k.Table == "sleep" {
+			// five fresh runtimes side by side: a sleep case waits (up to the watchdog), it does not compute
+			var wg sync.WaitGroup
+			var n int32
+			for k := 0; k < 5; k++ {
+				wg.Add(1)
+				go func() {
+					defer wg.Done()
+					if fs, _ := checkCase(nil, h.k); hasClass(fs, h.f.Class) {
+						atomic.AddInt32(&n, 1)
+					}
+				}()
 			}
-			fs, _ := checkCase(w, h.k)
+			wg.Wait()
+			res[i].repro = int(n)
+			return
+		}
+		for n := 0; n < 5; n++ {
+			fs, _ := checkCase(newWorker(), h.k)
 			if hasClass(fs, h.f.Class) {
 				res[i].repro++
 			}
@@ -807,6 +821,9 @@ func run(r *core.Run) {
 	r.Bound("duration_strings(<=2 components x sign + boundary list)", len(durs))
 	r.Bound("sleep_combinations(duration x :max x ceiling x context)", len(sleeps))
 	r.Bound("sleep_watchdog_s", watchdog.Seconds())
+	nctx, nexcl := sleepContextCounts(r.Thorough())
+	r.Bound("sleep_contexts(no context, stdlib WithCancel/WithTimeout, custom {Done nil|live|closed} x {Deadline none|past|near|far} x {Err nil|Canceled|DeadlineExceeded})", nctx)
+	r.Bound("sleep_custom_context_combinations_excluded_as_self_contradictory", nexcl)
 	r.Rule("non-trivial = an rfc string some parser accepted or a near-miss with exactly one bad field (distinct by text); a pair of textually different instants; " +
 		"a triple where the antecedent of an order law holds; an (instant, non-zero duration) pair; an accepted duration string; a sleep combination the model gives a definite verdict")
 	r.Assume("unspecified (only 'terminates, and an accepted value still round-trips' is asserted): second :60, lower-case t / z, more than nine fractional digits")
@@ -814,7 +831,9 @@ func run(r *core.Run) {
 	r.Assume("duration-s / duration-ms: exact (correctly rounded n/1e9, n/1e6) when |n| <= 2^53, within one ulp above")
 	r.Assume("time-from saturates beyond +-(2^63-1) ns: only its sign is asserted there; time-add/time-from inverses are asserted whenever the difference fits int64 ns")
 	r.Assume("an accepted near-miss with several bad fields is not reported separately when each of its bad fields is accepted on its own (the single-field string is the minimal counter-example)")
-	r.Assume("sleep: a refusal is an error returned within the 20 s watchdog when the requested sleep is >= 59 min or provably not slept; allowed sleeps are only executed at <= 50 ms, allowed long sleeps are started under a cancellable context and cancelled after 100 ms; " +
+	r.Assume("sleep: a refusal is an error returned within the 20 s watchdog when the requested sleep is >= 59 min or provably not slept; allowed sleeps are only executed at <= 50 ms, allowed long sleeps are started under a cancellable context and cancelled after 100 ms (under a context nothing can interrupt they are not executed; every must-refuse case is executed under every context); " +
+		"custom contexts answer Done / Deadline / Err independently and statically; combinations that contradict themselves (closed Done with nil Err, live or nil Done with Canceled, DeadlineExceeded before the deadline) are excluded; " +
+		"a non-positive sleep under a deadline already past is unspecified; " +
 		":max above the host ceiling with a duration below it, a non-positive or non-duration :max with a duration under the other caps, and a deadline less than 5 s after the end of the sleep are unspecified")
 
 	// model self-check 1: walk every civil date 0000-01-01 .. 9999-12-31 in calendar order (month lengths and
@@ -930,7 +949,7 @@ func run(r *core.Run) {
 	core.ParallelRange(r, int64(len(sleeps)), nil, func(_ struct{}, i int64) {
 		c := sleeps[i]
 		k := kase{Table: "sleep", Sleep: &c}
-		fs, info := checkSleep(c)
+		fs, info := checkSleepW(c, true)
 		mu.Lock()
 		sleepOutcomes[info.outcome]++
 		mu.Unlock()
